@@ -546,6 +546,32 @@ def rule_reader_refusals(u, rep, mode, rule="ERR-WHO", relabel_ok=False, tags_on
     return n
 
 
+_PANIC_CACHE = {}
+
+
+def _may_panic(u, did, depth=0):
+    """the function (or a crate function it calls, two levels down) contains an explicit panic / assert"""
+    key = (id(u), did)
+    if key in _PANIC_CACHE:
+        return _PANIC_CACHE[key]
+    _PANIC_CACHE[key] = False
+    hb = u.bodies.get(did)
+    r = False
+    if hb is not None and hb.thir is not None and depth <= 2:
+        inner = []
+        calls_in(hb.crate, hb.thir["root"], inner)
+        for d2, r2, _e2 in inner:
+            nm = d2.get("name") or ""
+            if d2.get("krate") in ("core", "std") and (nm in ("panic", "panic_fmt", "panic_explicit", "panic_display", "assert_failed", "begin_panic", "unreachable_display") or nm in ("unwrap", "expect")):
+                r = True
+                break
+            if d2.get("krate") == hb.d.get("krate") and _may_panic(u, (r2 or d2).get("id"), depth + 1):
+                r = True
+                break
+    _PANIC_CACHE[key] = r
+    return r
+
+
 def rule_fail_fast(u, rep, scope_files, crate="epserde", rule="FAIL-FAST", errs=None, exclude_fn=None):
     """MIR: between a call that returns Result<_, crate error> and the next such call on any normal path, the first
     result must have been looked at (moved into `?`/match/return, borrowed, its discriminant read). Otherwise the
@@ -598,6 +624,17 @@ def rule_fail_fast(u, rep, scope_files, crate="epserde", rule="FAIL-FAST", errs=
                         if not d2.get("p") and d2.get("l") in res_local:
                             bad = t2
                             break
+                        # a step of the crate that can panic, run while the failure is still pending: the state a
+                        # failed operation leaves is not the one its assertions were written for
+                        fn = ((t2.get("func") or {}).get("const") or {}).get("fn") or {}
+                        if "d" in fn:
+                            cid = b.crate.def_id(fn["d"])
+                            if cid.startswith(crate + "::") and _may_panic(u, cid):
+                                bad_panic = t2
+                                rep.oblige(False)
+                                rep.add(rule, b.n + ":panic-pending", "in `%s` the call at %s can panic and runs before the result of the fallible operation at %s has been looked at: a failure of the writer may surface as a panic" % (b.n, b.crate.span(t2["sp"]), b.crate.span(t["sp"])), b.crate.span(t2["sp"]))
+                                work = []
+                                break
                     elif k2 == "SwitchInt" and _mentions_local(t2.get("discr"), L):
                         continue
                     elif k2 == "Drop" and t2["place"].get("l") == L:
